@@ -80,8 +80,10 @@ class Exec:
         sleeps: Optional[Dict[str, int]] = None,
         label: str = "",
         watchdog: bool = True,
+        drain: bool = True,
     ) -> None:
         assert mode in ("free", "ctl")
+        self.drain = drain  # wait (up to 3 s) at exit for nodes that are still running
         self.watchdog = watchdog
         self.mode = mode
         self.choices = list(choices)
@@ -121,7 +123,7 @@ class Exec:
             self.abort = True
             self.cv.notify_all()
         pend = [t.future for t in self.toks if t.future is not None and not t.future.done()]
-        if pend:
+        if pend and self.drain:
             _real_wait(pend, timeout=3.0)
         self.finished = True
         if self.watchdog:
